@@ -17,6 +17,12 @@ Inductive case :=
 | CDoc (S : tsdoc) (D : opdoc) (ops : option (res (list wop)))
 | CDef (S : tsdoc) (D : opdoc) (idx : nat) (tree : option (res stree)) (t : option tstype)
        (safe alias_free : bool)
+| CInvalid (S : tsdoc) (D : opdoc) (idx : nat) (tree : option (res stree))
+   (* a definition of a spec-INVALID document that check nevertheless accepts (Field Selection Merging is
+      not implemented by the checker: same response key for a leaf and an object field, or for fields of
+      different list/non-null shape).  Such documents are outside the quantifier of C01/C02; the tie still
+      compares the outcome (the real code panics in deep_merge.rs, the model returns EMergeFields /
+      EMergeTrees); the property predicates are vacuously true. *)
 | CRelaxed (S : tsdoc) (D : opdoc) (idx : nat) (t : option tstype).
    (* twin of a [CDef] whose definition contains an aliased __typename: C02 is evaluated with that one
       known deviation read into Ref_local, so any OTHER looseness still fails *)
@@ -116,6 +122,11 @@ Definition agree (c : case) : bool :=
           && Bool.eqb (guard_alias_free Sc D d) al
       end
   | CRelaxed _ _ _ _ => true
+  | CInvalid Sc D idx tree =>
+      match nth_error (od_defs D) idx, tree with
+      | Some d, Some r => res_eqb stree_eqb (def_tree Sc D d) r
+      | _, _ => false
+      end
   end.
 
 (** ** C01 on the implementation's type: every enumerated spec response is admitted *)
@@ -151,6 +162,7 @@ Definition holds_with (p : tsdoc -> opdoc -> execdef -> tstype -> bool) (c : cas
   match c with
   | CDoc _ _ _ => true
   | CRelaxed _ _ _ _ => true
+  | CInvalid _ _ _ _ => true
   | CDef Sc D idx _ t _ _ =>
       match nth_error (od_defs D) idx, t with
       | Some d, Some t => p Sc D d t
